@@ -188,6 +188,14 @@ func verifEvictLocked() {
 	}
 }
 
+// getHookBuf takes over GetBuf while the hook is enabled (the call site in pool.go is add-only).
+func getHookBuf(size int) ([]byte, bool) {
+	if !verifOn.Load() {
+		return nil, false
+	}
+	return getHook(bytespool.Get(size)), true
+}
+
 func getHook(b []byte) []byte {
 	if !verifOn.Load() || cap(b) == 0 || cap(b) > 1<<30 {
 		return b
